@@ -219,6 +219,33 @@ pub fn plan_variants(a: &[u64]) -> Vec<u64> {
     vec![u64::from(same)]
 }
 
+/// [T, variant, thr, nrep, data(K*T)...] -> source + repair packets of a block encoder built by
+/// variant 0: SourceBlockEncoder::new (plan cache, warm or cold); 1: with_encoding_plan(generate(K));
+/// 2: solved directly with sparse threshold thr (no plan); 3: new() after clearing the plan cache
+pub fn variant_packets(a: &[u64]) -> Vec<u64> {
+    let t = a[0];
+    let data = bytes(&a[4..]);
+    let k = data.len() as u64 / t;
+    let c = ObjectTransmissionInformation::new(k * t, t as u16, 1, 1, 1);
+    let enc = match a[1] {
+        0 => SourceBlockEncoder::new(0, &c, &data),
+        1 => {
+            let plan = SourceBlockEncodingPlan::generate(k as u16);
+            SourceBlockEncoder::with_encoding_plan(0, &c, &data, &plan)
+        }
+        2 => vh::encoder::new_unplanned(0, &c, &data, a[2] as u32),
+        _ => {
+            vh::encoder::cache_clear();
+            SourceBlockEncoder::new(0, &c, &data)
+        }
+    };
+    let mut out = vec![];
+    for p in enc.source_packets().iter().chain(enc.repair_packets(0, a[3] as u32).iter()) {
+        push_packet(&mut out, p);
+    }
+    out
+}
+
 /// [K] -> the operation list of SourceBlockEncodingPlan::generate(K):
 /// per op: 1 dest src | 2 dest scalar | 3 dest src scalar | 4 len order...
 pub fn plan_ops(a: &[u64]) -> Vec<u64> {
